@@ -28,7 +28,7 @@ TRUSTED_BASE = [
     "double->float narrowing / float->double widening are the C++ conversions, supplied to the model by the driver (a parameter of the theorems)",
 ]
 ASSUMPTIONS = [
-    "seekable stream (std::stringstream / std::ifstream): on a stream without seek support SetPosition outside the cached window is refused (known finding F16b), which SkipValue of a long value and the seek back of ReadExtFamilyType need",
+    "equal answers need a seekable stream (std::stringstream / std::ifstream) or a run whose SetPositions stay in the cached window (T_C10mp_nonseekable_outside); otherwise (known finding F16b) the run ends in ParsingError (SkipValue) or InputOutputError (ext header look-ahead, timestamp, SetPosition; fix 24799d8) after answers identical to memory loading — T_C10mp_nonseekable_no_silent_difference, checked on every non-seekable case",
     "chunk_size >= 8 (it is 256; the test hook uses 8): GetValue<uint64_t> asks ReadSolidBlock for 8 contiguous bytes; refuted below 8 by T_C10mp_stream_equals_memory_anychunk_refuted",
     "input bytes are < 256, the document is shorter than 2^63 bytes, SetPosition is only called with positions inside the document (beyond the end the string reader throws std::invalid_argument and the stream reader returns normally: T_C10mp_stream_equals_memory_anysetpos_refuted)",
     "not modelled: the Offset field / text of the exceptions, mBuffer.reserve of ReadValue(string_view); the reader position after an exception is the final state of the model's run and is compared with the real stream reader on every case (p lines); it differs from the string reader's in the class of T_C10mp_skip_throw_related (same error class)",
@@ -114,6 +114,41 @@ def chunk8_cases(rng, tier):
     return cases
 
 
+def nonseekable_cases(rng, tier, ks):
+    """the four failure sites of T_C10mp_nonseekable_*: ext header straddling a chunk boundary (ts / type), SkipValue of a value that
+    ends beyond the window, the reader's own SetPosition back across a boundary; every alignment around the boundary; and the
+    same shapes inside one chunk (in the class)"""
+    cases = []
+    for k in ks:
+        for off in range(max(0, k - 8), k + 3):
+            pad = b"\xc0" * off
+            pre = ",".join(["nil"] * off) + ("," if off else "")
+            for ext in (b"\xd6\xff\x00\x00\x00\x05", b"\xd7\xff" + bytes(range(1, 9)), b"\xc7\x0c\xff" + bytes(range(1, 13)),
+                        b"\xc8\x00\x04\xff\x00\x00\x00\x07", b"\xc9\x00\x00\x00\x04\xff\x00\x00\x00\x07", b"\xd4\x07\x01"):
+                doc = pad + ext + b"\x01\x02\x03"
+                for ops in ("ts,int:u8", "type,ts,int:u8", "type,skip,int:u8", "int:s32,int:u8", "skip,int:u8"):
+                    cases.append("p n%d %s %s%s %s" % (k, rng.choice(["TT", "SS"]), pre, ops, M.hx(doc)))
+            for n in (1, 5, k - 1, k, k + 1, 2 * k + 3):
+                if n < 1:
+                    continue
+                doc = pad + M.enc_str(bytes((i * 5) % 251 for i in range(n))) + b"\x2a"
+                cases.append("p n%d TT %sskip,int:u8 %s" % (k, pre, M.hx(doc)))
+                cases.append("p n%d TT %sstr,int:u8 %s" % (k, pre, M.hx(doc)))
+                cases.append("p n%d SS %sint:u8,int:u8 %s" % (k, pre, M.hx(doc)))
+            doc = pad + b"\x01\x02\x03\x04"
+            for back in sorted(set([0, 1, max(0, off - 1), off, max(0, k - 1), k])):
+                if back <= len(doc):
+                    cases.append("p n%d TT %sint:u8,int:u8,seek:%d,int:u8,end %s" % (k, pre, back, M.hx(doc)))
+        # one-chunk documents: everything is local
+        for _ in range(40 if tier == "quick" else 400):
+            vs = [M.rand_value(rng) for _ in range(rng.randrange(1, 4))]
+            doc = b"".join(M.enc_value(v, rng) for v in vs)
+            if len(doc) < k:
+                ops = [rng.choice(SEQ_OPS) for _ in vs] + ["seek:0"] + [rng.choice(SEQ_OPS) for _ in vs]
+                cases.append("p n%d %s %s %s" % (k, rng.choice(M.POLS), ",".join(ops), M.hx(doc)))
+    return cases
+
+
 def to_p(line):
     """every case as a `p` line of harness/drv_msgpack.cpp: a sequence whose ERR answer carries the reader position after the throw"""
     t = line.split(" ")
@@ -136,6 +171,13 @@ def strip_pos(ans):
     if f[0] == "ERR" and len(f) == 3:
         parts[-1] = " ".join(f[:2])
     return ";".join(parts)
+
+
+def throws_only(stream_ans, mem_ans):
+    """same_or_throws of coq/MpStreamProofs.v on driver answers: the stream answers are a prefix of the memory answers
+    followed by one exception of class P (ParsingError) or IO (InputOutputError)"""
+    a, r = stream_ans.split(";"), mem_ans.split(";")
+    return a[-1] in ("ERR P", "ERR IO") and len(a) - 1 <= len(r) and a[:-1] == r[:len(a) - 1]
 
 
 def data_len(line):
@@ -210,6 +252,50 @@ def run_mpstream(ctx, vlib):
                     throw_pos_samples.append(dict(case=line, chunk=k, stream_reader=a, memory_reader=ref))
     classes["mpstream: reader position after the throw differs between the stream and the string reader (same error class)"] = throw_pos_differs
 
+
+    # ---- streams without seek support (kind n<K>): the model over stream_of data false predicts the real reader exactly;
+    # where the model says every SetPosition of the run stays in the cached window (nonseek_ok, T_C10mp_nonseekable_outside)
+    # the answers must be the string reader's
+    ns_differs, ns_samples, ns_nonlocal_same = 0, [], 0
+    pool = [c for c in stream if not ("dbffffffff" in c)]
+    ns_extra = nonseekable_cases(rng, tier, sorted(impls))
+    for k, impl in sorted(impls.items()):
+        step = 1 if k == 8 else 2
+        mine = [c.replace(" s ", " n%d " % k, 1) for c in pool[::step]] + [c for c in ns_extra if c.split(" ")[1] == "n%d" % k]
+        a_ns = vlib.run_driver(impl, mine)
+        m_ns = vlib.run_driver(model, mine)
+        cls = vlib.run_driver(model, ["k" + c[1:] for c in mine])
+        ref = vlib.run_driver(impls[256], ["q m " + " ".join(c.split(" ")[2:]) for c in mine])
+        evals += 3 * len(mine)
+        classes["mpstream non-seekable K=%d" % k] = len(mine)
+        for c, a, m, cl, r in zip(mine, a_ns, m_ns, cls, ref):
+            if data_len(c) > k:
+                nontriv += 1
+            same = strip_pos(a) == r
+            if not same and not throws_only(strip_pos(a), r):
+                # T_C10mp_nonseekable_no_silent_difference: a difference may only be an exception (ParsingError / InputOutputError) that
+                # ends the run, after answers identical to the string reader's
+                if len(failing) < 20:
+                    failing.append(dict(driver="mpstream", case=c, chunk=k, implementation=a, memory_reader=r, model=m, judge="FAIL",
+                                        why="SILENT DIFFERENCE on a stream without seek support: the stream reader answers %s, the string reader %s; "
+                                            "a refused seek must end in an exception (T_C10mp_nonseekable_no_silent_difference)" % (a[:160], r[:160])))
+            elif cl == "LOCAL" and not same:
+                if len(failing) < 20:
+                    failing.append(dict(driver="mpstream", case=c, chunk=k, implementation=a, memory_reader=r, model=m, judge="FAIL",
+                                        why="non-seekable stream, every SetPosition of the run stays in the cached window (nonseek_ok), yet the stream reader answers differently from the string reader: contradicts T_C10mp_nonseekable_outside"))
+            elif a != m:
+                if len(diffs) < 20:
+                    diffs.append(dict(driver="mpstream", case=c, chunk=k, implementation=a, memory_reader=r, model=m, judge="DIFF",
+                                      why="the stream-reader model over the non-seekable stream model disagrees with the real stream reader on a streambuf without seek support"))
+            elif not same:
+                ns_differs += 1
+                if len(ns_samples) < 4:
+                    ns_samples.append(dict(case=c, chunk=k, stream_reader=a, memory_reader=r))
+            elif cl != "LOCAL":
+                ns_nonlocal_same += 1
+    classes["mpstream non-seekable: the run ends in ParsingError / InputOutputError where memory loading goes on (a SetPosition left the cached window: F16b at the MsgPack level; answers before it identical)"] = ns_differs
+    classes["mpstream non-seekable: a SetPosition left the window but the answers are the same"] = ns_nonlocal_same
+
     known_lines = []
     kn = [x for x in vlib.load_known("C10") if x.get("status") == "known" and x.get("driver") == "mpstream"]
     if kn:
@@ -226,6 +312,7 @@ def run_mpstream(ctx, vlib):
     samples = [dict(case=stream[i][:300], implementation=a_mem[i][:300], model=om[i][:300]) for i in (0, len(stream) // 2, len(stream) - 1)]
     return dict(evaluations=evals, distinct_nontrivial=nontriv, failing=failing, diffs=diffs, classes=classes, known_lines=known_lines,
                 samples=samples, hook=hook, chunk_sizes=sorted(impls), throw_position_differs=throw_pos_differs, throw_position_samples=throw_pos_samples,
+                nonseekable_differs=ns_differs, nonseekable_samples=ns_samples, nonseekable_nonlocal_same=ns_nonlocal_same,
                 rule="extracted CMsgPackStreamReader model (run on the in-memory reader and on the chunked reader model, K = 8 and 256) vs the real stream reader built with chunk_size 256 and 8 (answers AND the reader position after a throw) vs the real string reader (answers), same case lines: one value of every format family and width behind a leading fixstr of every length 0..9 (0..17 thorough) so that every header / length field / ext type byte / payload lies on every alignment of an 8-byte chunk, read by the matching op, skip, type and a random op under both policies; every truncation of those; random documents x random op sequences with truncations and corruptions; strings / binaries / arrays of 7..100 units read through ReadByChunks and element-wise; plus the generators of C07/C10 (every first byte x tails x every op, documents shifted across the 256-byte boundary); non-trivial = distinct (case, K) whose document is longer than one chunk or that seeks (skip / ts / type)",
                 broken="correspondence MsgPack stream-reader model (coq/MpStreamModel.v) vs CMsgPackStreamReader (drv_msgpack kind s)")
 
